@@ -34,6 +34,12 @@ static void fault_report(const char *fn, const char *shape)
 	for (char *c = obj; *c; c++) if (*c == '+' || *c == '-' || *c == '(') { *c = 0; break; }
 	snprintf(key, sizeof key, "%s:fault:%s:%s", fn, obj, vk_last_fault.sig == 14 ? "hang" : vk_last_fault.is_write ? "write" : "read");
 	vk_violation("C08", key, NULL, "%s: signal %d at %s accessing %s (%s) shape %s", fn, vk_last_fault.sig, r, a, vk_last_fault.is_write ? "write" : "read", shape);
+	/* a call that dies produced no result: with valid arguments that is also a violation of the functional property the
+	 * sweep decides (e.g. an aligned-load instruction on a caller buffer of arbitrary alignment is not an out-of-range access) */
+	if (!strcmp(prop, "C02") || !strcmp(prop, "C03") || !strcmp(prop, "C04") || !strcmp(prop, "C05") || !strcmp(prop, "C07") || !strcmp(prop, "C09") || !strcmp(prop, "C10")) {
+		snprintf(key, sizeof key, "%s:no_result:%s", fn, vk_last_fault.sig == 14 ? "hang" : "fault");
+		vk_violation(prop, key, NULL, "%s did not return (signal %d at %s) for valid arguments: no result produced; shape %s", fn, vk_last_fault.sig, r, shape);
+	}
 }
 static void canary_report(const char *fn, const char *obj, const vk_slot *s, size_t off, size_t n, const char *shape)
 {
